@@ -32,6 +32,7 @@ func init() {
 			r.Cov["samples"] = m.Samp
 			r.Cov["per_family"] = m.Counts
 			r.Cov["exhaustive"] = !m.CapHit
+			attachSecondary(r)
 			r.Assume = []string{
 				"fields the handler did not set are not constrained (unset matchedDN/diagnosticMessage/resultCode defaults are not part of the property)",
 				"attributes given through the WithAttributes map are compared as a set (Go map order is unspecified); attributes added with AddAttribute in call order",
@@ -47,11 +48,11 @@ func init() {
 }
 
 type c04step struct {
-	Kind string   `json:"kind"` // opt:code opt:app opt:diag opt:matched opt:attrs | set:code set:diag set:matched set:controls set:attr
-	Int  int      `json:"int,omitempty"`
-	Str  string   `json:"str,omitempty"`
-	Strs []string `json:"strs,omitempty"`
-	Ctl  []codec.Control `json:"ctl,omitempty"`
+	Kind  string              `json:"kind"` // opt:code opt:app opt:diag opt:matched opt:attrs | set:code set:diag set:matched set:controls set:attr
+	Int   int                 `json:"int,omitempty"`
+	Str   string              `json:"str,omitempty"`
+	Strs  []string            `json:"strs,omitempty"`
+	Ctl   []codec.Control     `json:"ctl,omitempty"`
 	Attrs map[string][]string `json:"attrs,omitempty"`
 }
 
@@ -78,13 +79,13 @@ func (cs *c04case) shape() string {
 }
 
 type c04ref struct {
-	tag                      int
-	code                     *int
-	matched, diag            *string
-	entryDN                  string
-	ordered                  []codec.Attr
-	unordered                map[string][]string
-	controls                 []codec.Control
+	tag           int
+	code          *int
+	matched, diag *string
+	entryDN       string
+	ordered       []codec.Attr
+	unordered     map[string][]string
+	controls      []codec.Control
 }
 
 var ctorTag = map[string]int{"NewResponse": codec.AppExtendedResp, "NewBindResponse": codec.AppBindResponse, "NewSearchDoneResponse": codec.AppSearchDone, "NewSearchResponseEntry": codec.AppSearchEntry, "NewExtendedResponse": codec.AppExtendedResp, "NewModifyResponse": codec.AppModifyResponse}
